@@ -276,8 +276,10 @@ def facade_reports(g, t, obs, inflight_before, due, i, v):
     for e in obs["events"]:
         if e["k"] not in ("udialfail", "ulist"):
             continue
-        hit = next((d for d in due if d["k"] == e["k"] and
-                    (e["addr"] == d["addr"] if e["k"] == "udialfail" else e["addrs"] == d["addrs"])), None)
+        # (a single failed address may be reported either way: DialFailure{a} or ListDialFailures{[a]} name the same thing)
+        named = [e["addr"]] if e["k"] == "udialfail" else e["addrs"]
+        hit = next((d for d in due if d["k"] == e["k"] and named == ([d["addr"]] if d["k"] == "udialfail" else d["addrs"])), None) or \
+            next((d for d in due if d["k"] != e["k"] and named == ([d["addr"]] if d["k"] == "udialfail" else d["addrs"])), None)
         shown = e["addr"] if e["k"] == "udialfail" else "[" + ",".join(e["addrs"]) + "]"
         if hit is None:
             known = any(shown in (x.get("addr"), "[" + ",".join(x.get("addrs", ["?"])) + "]") for x in g.facade_done)
